@@ -345,9 +345,17 @@ func (w *World) BadEncoding(cls string, valid []byte) []byte {
 	case "uncompressed":
 		b[0] &= 0x7f
 		return b
-	case "xgep": // x >= p, flags kept
+	case "xgep": // x >= p, flags kept; x - p is the abscissa of a curve point, so that x >= p is the ONLY reason to refuse the string
 		pb := make([]byte, 48)
-		x := new(big.Int).Add(ref.P, big.NewInt(int64(w.Rng.Intn(1000))))
+		k := int64(w.Rng.Intn(1000))
+		for {
+			kk := big.NewInt(k)
+			if _, ok := ref.FpSqrt(ref.FpAdd(ref.FpMul(ref.FpMul(kk, kk), kk), big.NewInt(4))); ok {
+				break
+			}
+			k++
+		}
+		x := new(big.Int).Add(ref.P, big.NewInt(k))
 		x.FillBytes(pb)
 		pb[0] |= 0x80 | (b[0] & 0x20)
 		return pb
